@@ -115,3 +115,46 @@ pub fn stub_sort_by<T, F: FnMut(&T, &T) -> core::cmp::Ordering>(v: &mut [T], mut
         i += 1;
     }
 }
+
+// ---- opaque, injective tokens standing for std's number formatting (A1) ------------------------
+fn push_hex(out: &mut String, x: u64) {
+    let mut i = 0;
+    while i < 16 {
+        let nib = ((x >> (60 - 4 * i)) & 0xf) as u8;
+        out.push((if nib < 10 { b'0' + nib } else { b'a' + nib - 10 }) as char);
+        i += 1;
+    }
+}
+/// contract of `f64::to_string`: an injective rendering of the value (here: its bit pattern)
+pub fn f64_token(v: f64) -> String {
+    let mut s = String::with_capacity(24);
+    s.push_str("<f:");
+    push_hex(&mut s, v.to_bits());
+    s.push('>');
+    s
+}
+/// contract of `i64::to_string` for the small non-negative timestamps used by the harnesses
+pub fn i64_token(v: i64) -> String {
+    let mut s = String::with_capacity(24);
+    s.push_str("<i:");
+    if v >= 0 && v < 100 {
+        if v >= 10 {
+            s.push((b'0' + (v / 10) as u8) as char);
+        }
+        s.push((b'0' + (v % 10) as u8) as char);
+    } else {
+        push_hex(&mut s, v as u64);
+    }
+    s.push('>');
+    s
+}
+/// contract of `format!("{:?}", metric_type).to_lowercase()`
+pub fn type_name_lower(t: crate::proto::MetricType) -> String {
+    match t {
+        crate::proto::MetricType::COUNTER => "counter".to_owned(),
+        crate::proto::MetricType::GAUGE => "gauge".to_owned(),
+        crate::proto::MetricType::SUMMARY => "summary".to_owned(),
+        crate::proto::MetricType::UNTYPED => "untyped".to_owned(),
+        crate::proto::MetricType::HISTOGRAM => "histogram".to_owned(),
+    }
+}
